@@ -4,6 +4,7 @@ CONSTANTS
   MaxSize = 7
   SiftUpOnRemove = TRUE
   MaxBulk = 3
+  Core = FALSE
 INVARIANTS HeapOrder TopIsMin DrainSorted SortAgrees
 PROPERTY StepRefinesContract
 VIEW View
